@@ -26,6 +26,13 @@ func (dv *Router) ribUpdate(ns *table.NeighborState) {
 	dv.rib.DirtyResetNextHop(ns.Name)
 
 	for _, entry := range ns.Advert.Entries {
+		// Destination and NextHop are optional elements for the decoder. An entry
+		// received without one of them describes no route: skip it.
+		if entry.Destination == nil || entry.NextHop == nil {
+			log.Warnf("ribUpdate: advertisement of %s has an entry without Destination or NextHop, ignoring entry", ns.Name)
+			continue
+		}
+
 		// Use the advertised cost by default
 		cost := entry.Cost + localCost
 
